@@ -8,6 +8,7 @@ CONSTANTS
   GenTokens <- GenTokensDef
   LeafTokens <- LeafTokensDef
   KeyTokens <- KeyTokensDef
+  UnencMode = "empty"
   MaxTok = 0
 INIT TInit
 NEXT TNext
